@@ -3,6 +3,7 @@ package checks
 import (
 	"fmt"
 	"strings"
+	"sync/atomic"
 	"time"
 
 	pt "github.com/weedbox/pokertable"
@@ -16,6 +17,7 @@ type c08State struct {
 	expectOpen   bool
 	expectWhy    string
 	gateRet      bool
+	gateFired    bool
 	gateParts    int
 	openErr      string
 	openedGC     int
@@ -168,6 +170,7 @@ func c08Run(c *h.Ctx) {
 			st.gateRet = true
 			st.gateParts = len(e.Gate.Participants)
 		case h.EvGateFire:
+			st.gateFired = true
 			st.gateParts = len(e.Gate.Participants)
 		case h.EvError:
 			if strings.Contains(e.Err, "open game") {
@@ -228,7 +231,7 @@ func c08Run(c *h.Ctx) {
 	}
 	mon.BeforeSignal = func(p *Play) {
 		// called right before the pending set-up is signalled (after the between-hands operations)
-		st.expectOpen, st.gateRet, st.openErr = false, false, ""
+		st.expectOpen, st.gateRet, st.gateFired, st.openErr = false, false, false, ""
 		ss := p.SS
 		if ss.Pending == nil {
 			return
@@ -259,6 +262,22 @@ func c08Run(c *h.Ctx) {
 			ss.SignalPending(ids)
 		}
 	}
+	if c.Case%2 == 0 {
+		// a subscriber that reacts to the settlement from inside the callback with a call that takes the engine lock
+		// (it re-sends the current blind level, as a competition layer does on every tick)
+		var syncGC int64 = -1
+		c.Feature("lock-taking-call-inside-the-settlement-callback")
+		po.OnSync = func(p *Play, t *pt.Table) {
+			if t.State.Status != pt.TableStateStatus_TableGameSettled || p.SS == nil || p.SS.S == nil || p.SS.S.TE == nil {
+				return
+			}
+			if atomic.SwapInt64(&syncGC, int64(t.State.GameCount)) == int64(t.State.GameCount) {
+				return
+			}
+			b := t.State.BlindState
+			p.SS.S.TE.UpdateBlind(b.Level, b.Ante, b.Dealer, b.SB, b.BB)
+		}
+	}
 	p := RunPlay(c, po, mon)
 	if p == nil {
 		return
@@ -279,12 +298,27 @@ func c08Run(c *h.Ctx) {
 				c.Violate("C08/next-hand-not-opened", fmt.Sprintf("after hand %d (%s; all expected signals sent): %s; table status %s", p.HandNo-1, st.expectWhy, why, p.tableNow().State.Status), p.witness())
 				return
 			}
+			if st.expectOpen && !st.gateFired && len(p.SS.S.TE.GetTable().State.PlayerStates) > 0 {
+				// the expected players have signalled, or the 2 s open-game timeout has elapsed twenty times over, and
+				// the gate has not even fired
+				c.Violate("C08/next-hand-not-opened/open-game-gate-never-fired", fmt.Sprintf("after hand %d (%s): the next hand was set up and the signals were sent (possibly one withheld), but the open-game gate has not fired within 42 s (its timeout is 2 s); table status %s", p.HandNo-1, st.expectWhy, p.tableNow().State.Status), p.witness())
+				return
+			}
 			if st.expectOpen {
-				c.InconclusiveW("watchdog: next hand neither opened nor refused within 42 s", p.witness())
+				c.InconclusiveW("watchdog: the gate fired but the next hand neither opened nor was refused within 42 s", p.witness())
 				return
 			}
 			c.Feature("no-open-expected")
 			c.Sample(map[string]interface{}{"cfg": p.Cfg, "hands": len(p.SS.Hands), "ops": trimOps(p.Ops, 10), "ended": "fewer than two seated-in players with chips"})
+			return
+		}
+		if hd != nil && hd.Settled != nil {
+			// settled, and then neither a pause nor a set-up (nor anything else) within 42 s: the table is wedged
+			held := ""
+			if p.SS.S.LockHeldFor(10, 50*time.Millisecond) {
+				held = "; the engine lock is held although no call is in progress"
+			}
+			c.Violate("C08/no-continue-decision-after-settlement", fmt.Sprintf("hand %d was settled and 42 s later the table has neither paused nor set the next hand up (continue interval %d s); status %s%s", p.HandNo, p.Cfg.Interval, p.tableNow().State.Status, held), p.witness())
 			return
 		}
 		c.InconclusiveW(fmt.Sprintf("foreign: hand %d opened but did not settle (C11's subject)", p.HandNo), p.witness())
@@ -415,7 +449,7 @@ func init() {
 		Rule: "case = one generated table with short stacks and rigged decks (many busts), arrivals / re-buys / sit-outs / departures between and during hands, playing 8..17 hands with PRNG-chosen order and subset of settlement-finished signals; every fifth case uses a 1 s continue interval with an operation inside it (leave, break, re-buy, arrival); " +
 			"non-trivial = a continue decision after a bust or with a waiting / newly arrived player, or an interval-1 scenario; distinct = fingerprint of config+ops",
 		Assumptions: []string{
-			"'opens' is decided on logical events: a gate callback that returned, or an open error, without a hand is a refusal; nothing within 42 s is inconclusive (the engine's own retry loop lasts 30 s)",
+			"'opens' is decided on logical events: a gate callback that returned, or an open error, without a hand is a refusal; a gate that has not fired 42 s after the set-up (timeout 2 s) is a hand that never opens; a gate that fired without a result within 42 s is inconclusive (the engine's own retry loop lasts 30 s)",
 			"the premise 'two seated-in players with chips' is evaluated when the signals are sent; departures between hands keep two such players",
 			"'as soon as' is not judged by wall-clock (C09 judges the gate); prompt / late opens are only counted",
 		},
